@@ -29,6 +29,7 @@ func init() {
 			{"C17-R5", "stored EnvoyFilter patch values are neither aliased into generated objects nor edited", c17r5},
 			{"C17-R6", "generation stores only into configuration objects it created", c17r6},
 			{"C17-R7", "EDS locality groups are emitted in sorted order", c17r7},
+			{"C17-R8", "endpoint lists are never built in map iteration order", c17r8},
 		},
 	})
 }
@@ -1714,4 +1715,128 @@ func c17r7(c *Ctx) {
 	})
 	c.Check("generate appends locality groups", fn.Pos(), n >= 1, "no append of a *LocalityEndpoints found in EndpointBuilder.generate")
 	c.Floor(2)
+}
+
+// C17-R8: endpoint lists are never built in map order. A []*IstioEndpoint keeps its order all the way to the wire: the
+// registries hand it to the endpoint shards verbatim, EDS emits lb_endpoints in shard order (only shard keys and
+// localities are sorted), and the push context's per-port copy feeds inline DNS-cluster endpoints and the NDS table.
+// In the packages that build such lists (model, the service registries, xds/endpoints) no *IstioEndpoint is appended to
+// a slice inside a range over a map unless the function sorts a []*IstioEndpoint afterwards. (Ranging over
+// maps.SeqStable / sorted keys is a range over a function or slice, not over a map.) First-wins de-duplication inside
+// such a loop additionally makes WHICH duplicate survives depend on map order.
+var c17r8Exceptions = map[string]string{
+	"(*pilot/pkg/model.PushContext).ServiceEndpointsByPort": "InferencePool branch only: endpoints of all ports of the pool's service are concatenated in the order of the per-port map. Read, not demonstrated: the consumers of this list for InferencePool services are any-match scans (BestEffortInferServiceMTLSMode), a map keyed by address (listeners) and DNS inline endpoints, which InferencePool services (EDS) do not use - no generated byte was found to depend on the order (findings/findR notes it as the same shape, not shown on the wire)",
+}
+
+func c17r8(c *Ctx) {
+	p := c.P
+	isEpSlice := func(t types.Type) bool {
+		sl, ok := t.Underlying().(*types.Slice)
+		if !ok {
+			return false
+		}
+		pt, ok := sl.Elem().(*types.Pointer)
+		if !ok {
+			return false
+		}
+		n, ok := pt.Elem().(*types.Named)
+		return ok && n.Obj().Name() == "IstioEndpoint"
+	}
+	nLoops, nAppends := 0, 0
+	for _, fn := range p.AllFuncs {
+		if !isIstioFunc(fn) || isWrapperFn(fn) || isGenericOrigin(fn) || len(fn.Blocks) == 0 || strings.HasSuffix(p.Fset.Position(fn.Pos()).Filename, "_test.go") {
+			continue
+		}
+		pp := funcPkgPath(fn)
+		if !(pp == istioMod+"/"+pkgModel || strings.HasPrefix(pp, istioMod+"/pilot/pkg/serviceregistry") || pp == istioMod+"/"+pkgEndpoints) || strings.Contains(pp, "/test") || strings.Contains(pp, "/memory") || strings.Contains(pp, "/mock") {
+			continue
+		}
+		sorts := false
+		eachInstr(fn, func(ins ssa.Instruction) {
+			call, ok := ins.(*ssa.Call)
+			if !ok {
+				return
+			}
+			sc := call.Call.StaticCallee()
+			if sc == nil {
+				return
+			}
+			o := sc
+			if sc.Origin() != nil {
+				o = sc.Origin()
+			}
+			if o.Pkg == nil {
+				return
+			}
+			pth := o.Pkg.Pkg.Path()
+			if pth != "sort" && pth != "slices" && pth != istioMod+"/pkg/slices" {
+				return
+			}
+			if !(strings.HasPrefix(o.Name(), "Sort") || o.Name() == "Slice" || o.Name() == "SliceStable" || o.Name() == "Stable") {
+				return
+			}
+			for _, a := range call.Call.Args {
+				if isEpSlice(unwrap(a).Type()) {
+					sorts = true
+				}
+			}
+		})
+		for _, l := range rangeLoops(fn) {
+			if l.Over == nil || l.Body == nil || l.Body.Comment != "rangeiter.body" {
+				continue
+			}
+			if _, isMap := l.Over.Type().Underlying().(*types.Map); !isMap {
+				continue
+			}
+			nLoops++
+			var first *ssa.Call
+			eachInstr(fn, func(ins ssa.Instruction) {
+				call, ok := ins.(*ssa.Call)
+				if !ok || !isAppendCall(ins) || !isEpSlice(call.Type()) || !l.Body.Dominates(call.Block()) {
+					return
+				}
+				// a slice that belongs to this iteration's key (a map element indexed by the ranged key, or a slice created
+				// in the body) is filled in the order of the inner loop, not of the map
+				var keyVal ssa.Value
+				if l.Header != nil {
+					for _, hi := range l.Header.Instrs {
+						if nx, ok := hi.(*ssa.Next); ok {
+							for _, r := range *nx.Referrers() {
+								if ex, ok := r.(*ssa.Extract); ok && ex.Index == 1 {
+									keyVal = ex
+								}
+							}
+						}
+					}
+				}
+				tgt := call.Call.Args[0]
+				if lk, ok := tgt.(*ssa.Lookup); ok && keyVal != nil && lk.Index == keyVal {
+					return
+				}
+				if al, ok := tgt.(*ssa.Alloc); ok && l.Body.Dominates(al.Block()) {
+					return
+				}
+				if mk, ok := tgt.(*ssa.MakeSlice); ok && l.Body.Dominates(mk.Block()) {
+					return
+				}
+				nAppends++
+				if first == nil {
+					first = call
+				}
+			})
+			if first == nil {
+				continue
+			}
+			key := stableFnName(fn)
+			if why, ok := c17r8Exceptions[key]; ok {
+				c.Infof("exception %s: %s", key, why)
+				continue
+			}
+			c.Check("endpoint lists are not built in map order: "+key, first.Pos(), sorts,
+				"endpoints are appended to a list inside a range over a map and the list is not sorted afterwards: the list keeps this order all the way to the wire (lb_endpoints of EDS within a locality, inline endpoints of DNS clusters, the NDS address list), so the bytes for an unchanged endpoint set differ between istiod instances and from one rebuild to the next; if the loop also drops duplicates, which duplicate survives follows the map order too")
+		}
+	}
+	c.Check("map ranges in the endpoint-list packages examined (positive control)", token.NoPos, nLoops >= 30, fmt.Sprintf("%d ranges over maps examined", nLoops))
+	c.Infof("map ranges examined: %d, endpoint appends under them: %d", nLoops, nAppends)
+	c.Floor(1)
 }
